@@ -443,26 +443,24 @@ def _adjacent_distinct(ctx, rep):
         if J is None:
             rep.bad(f"recogniser:{rec}:distinct-adjacent", "the position of the recognised Join in the accumulated pipeline was not found", file=f["file"], line=f["l"], fn=f["path"])
             continue
-        allowed = {f"&{acc}[({acc}.len() - {J + 1})]", f"{acc}[({acc}.len() - {J + 1})]", "pipeline.peek()"}
+        # (`<acc>.last()` is that same transform once the recognised join has been popped, and the join itself before)
+        allowed = {f"&{acc}[({acc}.len() - {J + 1})]", f"{acc}[({acc}.len() - {J + 1})]", "pipeline.peek()", f"&{acc}.last()", f"{acc}.last()"}
+        # every test of the `Distinct` variant in the recogniser looks at one of those positions (whatever the test is written as:
+        # `if let`, `matches!`, a match arm; stored in a flag or a `let`)
         writes, bad = 0, []
         for n in walk(f["body"]):
-            if n.get("k") == "assign" and show(n["rhs"]) == "true" and "distinct" in show(n["lhs"]):
-                writes += 1
-                # enclosing tests on the Distinct variant
-                cur, scruts = n, []
-                while id(cur) in par:
-                    p_ = par[id(cur)]
-                    if p_.get("k") == "if" and (cur is p_.get("t") or any(x is cur for x in walk(p_["t"]))):
-                        c = p_["c"]
-                        if c.get("k") == "let" and "Distinct" in show(c["pat"]):
-                            scruts.append(show(c["e"], maxdepth=8))
-                        elif c.get("k") == "macro" and c["n"] == "matches" and "Distinct" in show(c["pat"]):
-                            scruts.append(show(c["a"][0], maxdepth=8))
-                        elif "Distinct" in show(c, maxdepth=8):
-                            scruts.append(show(c, maxdepth=8))
-                    cur = p_
-                if not scruts or any(sc not in allowed for sc in scruts):
-                    bad.append(scruts or ["<unconditional>"])
+            scr = None
+            if n.get("k") == "let" and re.search(r"\bDistinct\b", show(n["pat"])) and "DistinctOn" not in show(n["pat"]):
+                scr = show(n["e"], maxdepth=8)
+            elif n.get("k") == "macro" and n["n"] == "matches" and n.get("a") and re.search(r"\bDistinct\b", show(n["pat"])) and "DistinctOn" not in show(n["pat"]):
+                scr = show(n["a"][0], maxdepth=8)
+            elif n.get("k") == "match" and any(re.search(r"\bDistinct\b", show(a["pat"])) and "DistinctOn" not in show(a["pat"]) for a in n["arms"]):
+                scr = show(n["e"], maxdepth=8)
+            if scr is None:
+                continue
+            writes += 1
+            if scr not in allowed:
+                bad.append(scr)
         rep.check(writes >= 1 and not bad, f"recogniser:{rec}:distinct-adjacent", f"preprocess::{rec} decides `DISTINCT` from {bad}; only the transform next to the recognised join ({sorted(allowed)}) says whether "
                   "the top relation is distinct at that point — a Distinct further up followed by a row-multiplying join would turn EXCEPT/INTERSECT ALL into the DISTINCT form and drop duplicate rows",
                   file=f["file"], line=f["l"], fn=f["path"])
